@@ -31,6 +31,12 @@ def _rand_c01(rng, tier, sc0):
                 steps += h
                 if rng.random() < 0.5:
                     steps.append({"op": "Adv", "dt": rng.choice([1, 2, 61, 3600, 86400])})
+        if i % 4 == 2:
+            # recursive logging: the message of a record logs another record while it is being formatted
+            for st in steps:
+                if st["op"] == "Log" and st["len"] >= 12 and rng.random() < 0.3:
+                    st["recursive"] = True
+                    st["ilen"] = rng.choice([12, 12, 30, c.get("size", 10) + 12, c.get("cap", 64) + 1])
         out.append({"sc": sc0 + i, "cfg": c, "t0": G.boundary_t0(rng), "steps": steps,
                     "origin": "rand", "obs": "every" if nrec <= 20 else "sync"})
     return out
@@ -110,6 +116,10 @@ def _rand_c06(rng, tier, sc0):
             if rng.random() < 0.3:
                 h.append({"op": "Adv", "dt": rng.choice([1, 2, 3600])})
             steps += h
+        if c.get("naming") in ("TsC", "TsCD") and "k" not in c and "m" not in c and i % 2 == 0:
+            # a legal custom format whose alphabetical order is not the chronological one (nothing in the documentation
+            # asks for a sortable format; without cleanup nothing depends on the order of the names)
+            c["fmt"] = "r%d-%m-%Y_%H-%M-%S"
         if i % 5 == 4 and c.get("rot", True) and "use_ts" not in c:
             # FileLogWriter::builder().use_utc(): infixes rendered in UTC (the shards run under different zones)
             c["via"], c["utc"] = "flw", True
@@ -1451,6 +1461,8 @@ def _c10_op_steps(cls, rng, nfam):
         return [{"op": "Log", "len": 1, "msg": "h\u00e9llo \u2713 \u65e5\u672c " + _rand_unicode(rng, 12)}]
     if cls == "log_huge":
         return [{"op": "Log", "len": rng.choice([65536, 1048576])}]
+    if cls == "log_recursive":
+        return [{"op": "Log", "len": 20, "recursive": True, "ilen": rng.choice([12, 40, 200])}]
     if cls == "log_no_fields":
         return [{"op": "Log", "len": 20, "nomod": True, "query": True}]
     t = {"log_target_empty": ["", " "], "log_brace_open": ["{", "{{", "}"], "log_brace_empty": ["{}", "{,}", "{ }"],
@@ -1544,7 +1556,7 @@ def C10(tier, seed):
             raise C.ToolError(f"Robust violates {r['violated']}")
         states, transitions = r["states"], r["transitions"]
         C.log(f"[C10] TLC MCRobust_q.cfg: {r['states']} distinct states: totality over the class catalogue (14 directory classes x "
-              f"6 namings x 8 format classes x append x sequences of 23 operation classes)")
+              f"6 namings x 8 format classes x append x sequences of 24 operation classes)")
         g = C.run_tlc("MCRobust.tla", os.path.join(C.SPEC, "MCRobust_gen.cfg" if tier == "quick" else "MCRobust_gent.cfg"),
                       os.path.join(wd, "gen"), workers=4, timeout=1800)
         reps = C.replay_lines(g)
